@@ -25,6 +25,56 @@ class Infra(Exception):
     """infrastructure failure: exit 2, never a verdict"""
 
 
+class _Done:
+    def __init__(self, returncode, stdout, stderr):
+        self.returncode, self.stdout, self.stderr = returncode, stdout, stderr
+
+
+def run_proc(cmd, cwd=None, input=None, timeout=3000):
+    """subprocess.run(capture_output, text) in its own process group; on timeout the whole group is killed
+    (`lake env lean …` would otherwise leave the `lean` child spinning) and subprocess.TimeoutExpired is raised"""
+    import signal
+    p = subprocess.Popen(cmd, cwd=cwd, stdin=subprocess.PIPE if input is not None else subprocess.DEVNULL,
+                         stdout=subprocess.PIPE, stderr=subprocess.PIPE, text=True, start_new_session=True)
+    try:
+        out, err = p.communicate(input=input, timeout=timeout)
+    except subprocess.TimeoutExpired:
+        try:
+            os.killpg(p.pid, signal.SIGKILL)
+        except Exception:  # noqa
+            pass
+        p.wait()
+        raise
+    return _Done(p.returncode, out, err)
+
+
+def repo_root():
+    return os.environ.get("XGI_REPO") or "/repo"
+
+
+def jsonable(o):
+    """make any case/detail object JSON-serialisable (dict keys of any type, numpy scalars, sets, tuples)"""
+    if isinstance(o, dict):
+        return {(k if isinstance(k, str) else repr(k)): jsonable(v) for k, v in o.items()}
+    if isinstance(o, (list, tuple)):
+        return [jsonable(x) for x in o]
+    if isinstance(o, (set, frozenset)):
+        return sorted((jsonable(x) for x in o), key=repr)
+    if o is None or isinstance(o, (bool, int, float, str)):
+        return o
+    try:
+        import numpy as np
+        if isinstance(o, np.integer):
+            return int(o)
+        if isinstance(o, np.floating):
+            return float(o)
+        if isinstance(o, np.ndarray):
+            return jsonable(o.tolist())
+    except Exception:  # noqa
+        pass
+    return repr(o)
+
+
 def jhash(obj):
     return hashlib.sha1(json.dumps(obj, sort_keys=True, default=repr).encode()).hexdigest()[:16]
 
@@ -32,22 +82,31 @@ def jhash(obj):
 # ----------------------------------------------------------------------------- Lean side
 
 class _Lock:
+    """exclusive lock on the Lean project (translate -> build -> audit is one critical section); re-entrant per process"""
+    depth = 0
+    handle = None
+
     def __enter__(self):
-        os.makedirs(OUT, exist_ok=True)
-        self.f = open(os.path.join(OUT, ".lean.lock"), "w")
-        fcntl.flock(self.f, fcntl.LOCK_EX)
+        if _Lock.depth == 0:
+            os.makedirs(OUT, exist_ok=True)
+            _Lock.handle = open(os.path.join(OUT, ".lean.lock"), "w")
+            fcntl.flock(_Lock.handle, fcntl.LOCK_EX)
+        _Lock.depth += 1
         return self
 
     def __exit__(self, *a):
-        fcntl.flock(self.f, fcntl.LOCK_UN)
-        self.f.close()
+        _Lock.depth -= 1
+        if _Lock.depth == 0:
+            fcntl.flock(_Lock.handle, fcntl.LOCK_UN)
+            _Lock.handle.close()
+            _Lock.handle = None
 
 
 def lean_build(modules, timeout=3000):
     """lake build the given modules; returns (ok, output)."""
     with _Lock():
         try:
-            p = subprocess.run(["lake", "build"] + list(modules), cwd=LEAN, capture_output=True, text=True, timeout=timeout)
+            p = run_proc(["lake", "build"] + list(modules), cwd=LEAN, timeout=timeout)
         except subprocess.TimeoutExpired:
             raise Infra("lake build timed out")
     return p.returncode == 0, p.stdout + p.stderr
@@ -113,11 +172,17 @@ def lean_audit(prop_mod, extra_mods=()):
     body = "".join(f"import {m}\n" for m in (prop_mod,) + tuple(extra_mods)) + "".join(f"#print axioms {t}\n" for t in thms)
     if not os.path.exists(af) or open(af).read() != body:
         open(af, "w").write(body)
-    try:
-        p = subprocess.run(["lake", "env", "lean", af], cwd=LEAN, capture_output=True, text=True, timeout=1800)
-    except subprocess.TimeoutExpired:
-        raise Infra("audit timed out")
-    out = p.stdout + p.stderr
+    out = ""
+    for attempt in range(2):
+        try:
+            with _Lock():
+                p = run_proc(["lake", "env", "lean", af], cwd=LEAN, timeout=1800)
+        except subprocess.TimeoutExpired:
+            raise Infra("audit timed out")
+        out = p.stdout + p.stderr
+        if "depends on axioms" in out or "does not depend on any axioms" in out or not thms:
+            break
+        time.sleep(3)       # transient: another process was rebuilding a shared module
     discharged = []
     flat = re.sub(r"\s+", " ", out)
     for t in thms:
@@ -144,8 +209,8 @@ def run_driver(name, requests, timeout=3000):
     last = ""
     for attempt in range(3):
         try:
-            p = subprocess.run(["lake", "env", "lean", "--run", os.path.join("Drivers", name + ".lean")], cwd=LEAN,
-                               input=data, capture_output=True, text=True, timeout=timeout)
+            p = run_proc(["lake", "env", "lean", "--run", os.path.join("Drivers", name + ".lean")], cwd=LEAN,
+                         input=data, timeout=timeout)
         except subprocess.TimeoutExpired:
             raise Infra(f"driver {name} timed out")
         lines = [l for l in p.stdout.split("\n") if l.strip()]
@@ -284,9 +349,24 @@ class Ctx:
                                     broken=broken or [], count=1))
 
 
+def _matches(k, v):
+    """a violation matches a known-findings entry when site and failure class agree and, if the entry names a witness
+    pattern, the violation's own case/detail show it: `witness` = {"case_regex": …, "detail_regex": …} (either optional),
+    matched against the JSON text of the replay case / the detail string.  A different violation at the same site
+    (other class, or a case outside the witness pattern) is therefore still reported."""
+    if not (v["kind"] == "concrete" and k["site"] == v["site"] and k["failure_class"] == v["failure_class"]):
+        return False
+    w = k.get("witness") or {}
+    if w.get("case_regex") and not re.search(w["case_regex"], json.dumps(jsonable(v["case"]), sort_keys=True)):
+        return False
+    if w.get("detail_regex") and not re.search(w["detail_regex"], str(v["detail"])):
+        return False
+    return True
+
+
 def is_known(ctx, v, known=None):
     known = known if known is not None else [k for k in load_known() if k["property"] == ctx.prop]
-    return any(v["kind"] == "concrete" and k["site"] == v["site"] and k["failure_class"] == v["failure_class"] for k in known)
+    return any(_matches(k, v) for k in known)
 
 
 def unlisted_violations(ctx):
@@ -315,8 +395,7 @@ def finish(ctx, level="proof", checker_cmd="", trusted_base=None):
     for old in os.listdir(os.path.join(OUT, "replays", ctx.prop)):
         os.remove(os.path.join(OUT, "replays", ctx.prop, old))
     for v in ctx.violations:
-        match = next((k for k in known if v["kind"] == "concrete" and k["site"] == v["site"]
-                      and k["failure_class"] == v["failure_class"]), None)
+        match = next((k for k in known if _matches(k, v)), None)
         if match:
             print(f"KNOWN-FINDING: property={ctx.prop} {match['site']} {match['failure_class']}: {match['description']}")
             continue
@@ -324,9 +403,10 @@ def finish(ctx, level="proof", checker_cmd="", trusted_base=None):
                       seed=ctx.seed, site=v["site"], failure_class=v["failure_class"], case=v["case"],
                       detail=v["detail"], broken=v["broken"], occurrences=v["count"],
                       how=f"./check {ctx.prop} --replay <this file>")
-        path = os.path.join(OUT, "replays", ctx.prop, f"{v['site'].replace('/', '_')}-{v['failure_class']}-{jhash(v['case'])}.json"[:200])
+        path = os.path.join(OUT, "replays", ctx.prop, (f"{v['site']}-{v['failure_class']}".replace("/", "_").replace(" ", "_")[:150]
+                                                       + f"-{jhash(jsonable(v['case']))}.json"))
         with open(path, "w") as f:
-            json.dump(replay, f, indent=1, default=repr)
+            json.dump(jsonable(replay), f, indent=1)
         tail = "" if v["kind"] == "concrete" else " no-failing-input-found"
         print(f"VIOLATION property={ctx.prop} replay={path}{tail}")
         print(f"  site={v['site']} class={v['failure_class']} detail={str(v['detail'])[:300]}")
@@ -344,15 +424,37 @@ def finish(ctx, level="proof", checker_cmd="", trusted_base=None):
         broken=ctx.broken,
     )
     cov.update(ctx.extra)
+    cov["repo"] = repo_provenance()
     ev = dict(property_id=ctx.prop, tier=ctx.tier, seed=ctx.seed, level=level, coverage=cov,
               assumptions=ctx.assumptions, wall_s=round(time.time() - ctx.t0, 2), violations=len(reported))
-    os.makedirs(EVID, exist_ok=True)
-    with open(os.path.join(EVID, ctx.prop + ".json"), "w") as f:
-        json.dump(ev, f, indent=1, default=repr)
+    write_evidence(ctx.prop, ev)
     print(f"{ctx.prop} tier={ctx.tier} seed={ctx.seed}: obligations={cov['obligations']} discharged={cov['discharged']} "
           f"evaluations={ctx.evaluations} distinct_nontrivial={len(ctx.nontrivial)} traces={ctx.traces} "
           f"violations={len(reported)} wall={ev['wall_s']}s")
     return rc
+
+
+def repo_provenance():
+    root = repo_root()
+    def git(*a):
+        try:
+            return subprocess.run(["git", "-C", root] + list(a), capture_output=True, text=True, timeout=30).stdout.strip()
+        except Exception:  # noqa
+            return "?"
+    return {"root": root, "head": git("rev-parse", "--short", "HEAD"), "dirty_files": [l[3:] for l in git("status", "--short", "--", "xgi").split("\n") if l.strip()][:20]}
+
+
+def evidence_path(prop):
+    """evidence/<prop>.json for runs against /repo; runs against a scratch worktree (XGI_REPO) write to
+    out/evidence-scratch/ so that the committed evidence always describes /repo itself"""
+    d = EVID if not os.environ.get("XGI_REPO") else os.path.join(OUT, "evidence-scratch")
+    os.makedirs(d, exist_ok=True)
+    return os.path.join(d, prop + ".json")
+
+
+def write_evidence(prop, ev):
+    with open(evidence_path(prop), "w") as f:
+        json.dump(jsonable(ev), f, indent=1)
 
 
 TRUSTED_COMMON = [
@@ -362,8 +464,40 @@ TRUSTED_COMMON = [
 ]
 
 
-def build_and_audit(ctx, prop_mod, other_mods=(), audit_extra=()):
-    """lake build + audit; records broken obligations on ctx; returns True if everything checks"""
+_RESTORE = []
+
+
+def _restore_generated():
+    """after a run against a scratch worktree: regenerate the tables from /repo so that the tracked Generated/*.lean files
+    (and the next `lake build`) describe /repo again"""
+    env = os.environ.pop("XGI_REPO", None)
+    try:
+        with _Lock():
+            for t in _RESTORE:
+                try:
+                    t()
+                except Exception:  # noqa
+                    pass
+    finally:
+        if env is not None:
+            os.environ["XGI_REPO"] = env
+
+
+def build_and_audit(ctx, prop_mod, other_mods=(), audit_extra=(), translate=None):
+    """(translate ->) lake build -> audit as ONE critical section under the project lock; records broken obligations on
+    ctx; returns True if everything checks.  `translate` regenerates a Generated/*.lean table from the source tree."""
+    with _Lock():
+        if translate is not None:
+            translate()
+            if os.environ.get("XGI_REPO") and translate not in _RESTORE:
+                import atexit
+                if not _RESTORE:
+                    atexit.register(_restore_generated)
+                _RESTORE.append(translate)
+        return _build_and_audit(ctx, prop_mod, other_mods, audit_extra)
+
+
+def _build_and_audit(ctx, prop_mod, other_mods=(), audit_extra=()):
     ok, out = lean_build([prop_mod] + list(other_mods))
     if not ok:
         errs = re.findall(r"error: ([^\n]*)", out)
@@ -380,7 +514,7 @@ def build_and_audit(ctx, prop_mod, other_mods=(), audit_extra=()):
         for m in (prop_mod,) + tuple(audit_extra):
             import_closure(m, mods)
         try:
-            p = subprocess.run(["lake", "env", "leanchecker"] + mods, cwd=LEAN, capture_output=True, text=True, timeout=3000)
+            p = run_proc(["lake", "env", "leanchecker"] + mods, cwd=LEAN, timeout=3000)
         except subprocess.TimeoutExpired:
             raise Infra("leanchecker timed out")
         ctx.extra["leanchecker"] = {"modules": len(mods), "exit": p.returncode, "output": (p.stdout + p.stderr)[-300:]}
